@@ -54,7 +54,7 @@ NAMES = {"i0": 0, "i1": 1, "i2": 2, "f15": 1.5, "se": "", "sa": "a", "s1": "1", 
          "l1": ["L", 1], "dt": 1704067200, "l12": ["L", 1, 2]}
 Z_VALUES = [0, 1, 2, 1.5, "", "a", "1", None, True, ["L", 1], 1704067200]
 ORACLE_TYPES = ["Text", "Int", "Numeric", "Bool", "Date", "Choice", "ChoiceList", "Any", "Ref:U", "RefList:U",
-                "Ref:V", "RefList:V", "DateTime:UTC", "DateTime:America/New_York", "Attachments"]
+                "Ref:V", "RefList:V", "DateTime:UTC", "DateTime:America/New_York", "DateTime:Asia/Tokyo", "Attachments"]
 MISSING = "?missing"
 
 
